@@ -1,3 +1,134 @@
 import Driver.Common
--- stub driver (not yet implemented)
-def main : IO Unit := Driver.run () (fun s _ => (s, "bad-op"))
+import SSV.Model.Cred
+open SSV SSV.Cred SSV.Gen.C08
+
+/-
+Line protocol of the C08 driver (one answer line per input line):
+  init <pskLen> <tcp 0|1> <udp 0|1> <doc> <k1,k2,…>   RegisterServer on a store file; the key list is the universe observed in dumps
+  add <name> <key> | update <name> <key> | delete <name> | reload | edit <doc> | tick
+  race <op>;<op>[;<op>]     every outcome of every interleaving (then a tick), sorted, joined by '|'
+names: `-` is the empty username.  keys: <id>/<len>.  docs: E (zero bytes) | G (rejected by the decoder) | J:<name>=<key>,… (members in file order)
+answer: <result>;creds=…;tcp=…;htcp=…;udp=…;hudp=…;file=<doc>
+-/
+
+def hashOf (k : Key) : Hash := k.id
+
+structure DSt where
+  st : St
+  keys : List Key
+
+def parseName (s : String) : Name := if s == "-" then "" else s
+def showName (n : Name) : String := if n == "" then "-" else n
+
+def parseKey (s : String) : Option Key :=
+  match s.splitOn "/" with
+  | [a, b] => do let i ← a.toNat?; let l ← b.toNat?; pure ⟨i, l⟩
+  | _ => none
+
+def showKey (k : Key) : String := s!"{k.id}/{k.len}"
+
+def parseEntry (s : String) : Option Entry :=
+  match s.splitOn "=" with
+  | [n, k] => do let k ← parseKey k; pure (parseName n, k)
+  | _ => none
+
+def parseDoc (s : String) : Option Doc :=
+  if s == "E" then some .empty
+  else if s == "G" then some .garbage
+  else if s.startsWith "J:" then
+    let body := (s.drop 2).toString
+    if body == "" then some (.entries [])
+    else (body.splitOn ",").mapM parseEntry |>.map Doc.entries
+  else none
+
+def showDoc : Doc → String
+  | .empty => "E"
+  | .garbage => "G"
+  | .entries l => "J:" ++ ",".intercalate (l.map fun (n, k) => s!"{showName n}={showKey k}")
+
+def showRes : Res → String
+  | .ok => "ok" | .errEmptyName => "err:empty-name" | .errLen => "err:len" | .errExists => "err:exists"
+  | .errNoUser => "err:nouser" | .errSame => "err:same" | .errDup => "err:dup" | .errParse => "err:parse"
+  | .errInvalid => "err:invalid"
+
+def showLive (keys : List Key) (live : Option ULM) (hs : Bool) : String :=
+  match live with
+  | none => "none"
+  | some m => ",".intercalate (keys.map fun k =>
+      let who := if hs then handshake hashOf m k else (find m (hashOf k)).map (·.1)
+      s!"{k.id}:" ++ (match who with | some n => showName n | none => "!"))
+
+def dump (d : DSt) : String :=
+  let st := d.st
+  "creds=" ++ ",".intercalate ((listed st).map fun (n, k) => s!"{showName n}:{showKey k}") ++
+  ";tcp=" ++ showLive d.keys st.tcp false ++ ";htcp=" ++ showLive d.keys st.tcp true ++
+  ";udp=" ++ showLive d.keys st.udp false ++ ";hudp=" ++ showLive d.keys st.udp true ++
+  ";file=" ++ showDoc st.file ++ (if st.fault then ";FAULT" else "")
+
+def parseOp (ws : List String) : Option Op :=
+  match ws with
+  | ["add", n, k] => (parseKey k).map (Op.add (parseName n))
+  | ["update", n, k] => (parseKey k).map (Op.update (parseName n))
+  | ["delete", n] => some (Op.delete (parseName n))
+  | ["reload"] => some Op.reload
+  | _ => none
+
+/-- steps that neither read nor write shared state: they commute with every other thread's segments -/
+def isLocal : Step → Bool
+  | .guardName | .guardLen | .deferClose | .ret | .hashKey | .mkConfig | .guardConfigOk | .mkCred => true
+  | _ => false
+
+/-- all terminal systems over every interleaving (local segments run eagerly: they commute) -/
+def explore : Nat → Sys → List Sys
+  | 0, s => [s]
+  | fuel + 1, s =>
+    let idx := List.range s.threads.length
+    let live := idx.filter fun i => match s.threads[i]? with | some t => !t.prog.isEmpty | none => false
+    if live.isEmpty then [s]
+    else
+      match live.find? (fun i => match s.threads[i]? with | some t => (t.prog.head?.map isLocal).getD false | none => false) with
+      | some i => explore fuel (s.act hashOf (.thread i))
+      | none => live.flatMap fun i => explore fuel (s.act hashOf (.thread i))
+
+def dedupSorted (l : List String) : List String :=
+  let s := l.mergeSort (fun a b => decide (a ≤ b))
+  s.foldr (fun x acc => match acc with | y :: _ => if x == y then acc else x :: acc | [] => [x]) []
+
+def raceOutcomes (d : DSt) (ops : List Op) : String :=
+  let s0 := Sys.start d.st ops
+  let fuel := (s0.threads.map (·.prog.length)).foldl (· + ·) 1
+  let finals := explore fuel s0
+  let outs := finals.map fun s =>
+    let rs := ",".intercalate (s.threads.map fun t => showRes (t.res.getD .ok))
+    rs ++ ";" ++ dump { d with st := tick s.st }
+  "|".intercalate (dedupSorted outs)
+
+def stepC08 (d : DSt) (line : String) : DSt × String :=
+  let ws := fields line
+  match ws with
+  | ["init", pl, tcp, udp, doc, keys] =>
+    match pl.toNat?, parseDoc doc, (keys.splitOn ",").mapM parseKey with
+    | some pl, some doc, some keys =>
+      let (st, res) := call hashOf (fresh pl (tcp == "1") (udp == "1") doc) .reload
+      let d' : DSt := { st := st, keys := keys }
+      (d', showRes res ++ ";" ++ dump d')
+    | _, _, _ => (d, "bad-op")
+  | ["edit", doc] =>
+    match parseDoc doc with
+    | some doc => let d' := { d with st := { d.st with file := doc } }; (d', "ok;" ++ dump d')
+    | none => (d, "bad-op")
+  | ["tick"] => let d' := { d with st := tick d.st }; (d', "ok;" ++ dump d')
+  | "race" :: rest =>
+    let parts := (" ".intercalate rest).splitOn ";"
+    match parts.mapM (fun p => parseOp (fields p)) with
+    | some ops => (d, raceOutcomes d ops)
+    | none => (d, "bad-op")
+  | _ =>
+    match parseOp ws with
+    | some op =>
+      let (st, res) := call hashOf d.st op
+      let d' := { d with st := st }
+      (d', showRes res ++ ";" ++ dump d')
+    | none => (d, "bad-op")
+
+def main : IO Unit := Driver.run ({ st := fresh 16 true true .empty, keys := [] } : DSt) stepC08
